@@ -17,7 +17,7 @@
      x/leveragelp/keeper/position_close.go CloseLong: GetPosition(ctx, msg.Creator, msg.Id).
      x/perpetual/keeper/process_mtp.go
         CheckAndLiquidateUnhealthyPosition: settle borrow interest and funding (custody changes, stored),
-           h := GetMTPHealth, SetMTP, hook, `if h.LTE(SafetyFactor)` ForceClose{Long,Short} (NO cache context).
+           h := GetMTPHealth, SetMTP, hook, `if h.LTE(SafetyFactor)` ForceClose{Long,Short} (each item on a cache context since fix: 85af696).
         CheckAndCloseAtStopLoss: LONG `!nil && price.LTE(sl)`, SHORT `!nil && price.GTE(sl)`.
         CheckAndCloseAtTakeProfit: LONG `price.GTE(tp)`, SHORT `price.LTE(tp)` (no nil check: a nil
            trigger panics inside LegacyDec comparison, recovered by the deferred recover, nothing closed).
@@ -91,8 +91,8 @@ Definition with_funds (s : state) (f : fmap) : state := mkSt (st_lev s) (st_perp
 (* ---------------------------------------------------------------- forced steps *)
 
 (* outcome of the force close itself, resolved from the implementation.
-   CloseFail pay: the close returned an error / panicked. leveragelp runs it on a cache context, so
-   nothing is kept; perpetual has no cache context: what had been paid out before the failure stays. *)
+   CloseFail pay: the close returned an error / panicked. both modules run each item on a cache
+   context that is written only on success (leveragelp since fix: f605879, perpetual since fix: 85af696), so nothing is kept. *)
 Inductive closeres := CloseOk (pay : list (Z * Z)) | CloseFail (pay : list (Z * Z)).
 
 Inductive kind := KLevLiq | KLevStop | KLevSweep | KPerpLiq | KPerpStop | KPerpTake.
@@ -146,8 +146,8 @@ Definition do_close (m : module) (s : state) (o i : Z) (c : closeres) : state :=
   | CloseOk pay => with_funds (with_pm m s (pset (pm m s) o i None)) (pay_all (st_funds s) o pay)
   | CloseFail pay =>
       match m with
-      | MLev => s                                              (* cache context dropped *)
-      | MPerp => with_funds s (pay_all (st_funds s) o pay)     (* no cache context *)
+      | MLev => s                                              (* cache context dropped (fix: f605879) *)
+      | MPerp => s                                             (* cache context dropped (fix: 85af696; before it what had been paid out stayed) *)
       end
   end.
 
